@@ -1,6 +1,7 @@
 import Hv.Driver.Core
 import Hv.Vhdx
 import Hv.Layers
+import Hv.Footprint
 namespace Hv.Driver
 open Hv
 
@@ -58,6 +59,12 @@ def vhdxCmd (st : St) : List String → String
       | .ok none => "bad-args"
       | .error e => s!"err {e}"
     | _, _ => "bad-args"
+  | "vhdx.footprint" :: off :: len :: ids =>
+    -- C13: the file ranges `_read(off, len)` of the top layer may look at
+    match off.toNat?, len.toNat?, vhdxChain st ids with
+    | some o, some l, .ok (some v) => Footprint.render (Footprint.vhdx v o l)
+    | _, _, .error e => s!"err {e}"
+    | _, _, _ => "bad-args"
   | "vhdx.sectors" :: sector :: count :: ids =>
     match sector.toNat?, count.toNat?, vhdxChain st ids with
     | some s, some c, .ok (some v) => fmtRes (v.readSectors c s c)
